@@ -12,6 +12,11 @@ open Netpoll.Shard
 theorem funcs_eq : Netpoll.Gen.Shard.funcs = expected_funcs := by decide
 theorem steps_Add : Netpoll.Gen.Shard.steps_Add = expected_Add := by decide
 theorem steps_Close : Netpoll.Gen.Shard.steps_Close = expected_Close := by decide
+theorem steps_drained : Netpoll.Gen.Shard.steps_drained = expected_drained := by decide
+/-- `Add` returns at once when it has no getters, before any shared access -/
+theorem add_guard : Netpoll.Gen.Shard.add_guard = expected_Add_guard := by decide
+/-- the shard index is computed from the counter taken as `uint32` -/
+theorem add_shard : Netpoll.Gen.Shard.add_shard = expected_Add_shard := by decide
 theorem steps_triggering : Netpoll.Gen.Shard.steps_triggering = expected_triggering := by decide
 theorem steps_foreach : Netpoll.Gen.Shard.steps_foreach = expected_foreach := by decide
 theorem steps_deal : Netpoll.Gen.Shard.steps_deal = expected_deal := by decide
@@ -21,6 +26,7 @@ theorem steps_unlock : Netpoll.Gen.Shard.steps_unlock = expected_unlock := by de
 theorem no_unsupported_shape : Netpoll.Gen.Shard.unsupported = [] := by decide
 /-- the worker and the adders use the same lock protocol -/
 theorem lock_sites_agree : APc.lock.site = WPc.lock.site ∧ APc.unlock.site = WPc.unlock.site ∧
+    APc.lock.site = CPc.lock.site ∧ APc.unlock.site = CPc.unlock.site ∧
     APc.run.site = TPc.run.site ∧ APc.spawn.site = TPc.spawn.site := by decide
 
 end Netpoll.Tie.Shard
